@@ -287,8 +287,13 @@ impl StreamData {
         let start_idx = self.entries.binary_search_by(|e| e.id.cmp(start))
             .unwrap_or_else(|idx| idx);
         
-        let end_idx = self.entries.binary_search_by(|e| e.id.cmp(end))
-            .unwrap_or_else(|idx| if idx > 0 { idx - 1 } else { 0 });
+        let end_idx = match self.entries.binary_search_by(|e| e.id.cmp(end)) {
+            Ok(idx) => idx,
+            // every entry is greater than `end`: there is nothing to end at
+            Err(0) => return StreamRangeResult { entries: Vec::new() },
+            // the last entry that is not greater than `end`
+            Err(idx) => idx - 1,
+        };
         
         let mut result_entries = Vec::new();
         
